@@ -6,7 +6,7 @@
 (*                                                                         *)
 (* A trace of kind "rt" is one format -> parse -> format execution on a    *)
 (* random structure (deeper than the model-checked space):                 *)
-(*   [kind, r, t, p, warn, exc, t2, same,                                  *)
+(*   [kind, r, t, p, warn, exc, t2, same, tc,                              *)
 (*    re, rs, ts, ps, warns, sames, fmtsame]                               *)
 (*   r     the structure given to PkgRelation.str (atoms as in PkgRelation,*)
 (*         payload strings interned to ids)                                *)
@@ -24,6 +24,9 @@
 (*                        specification explains what the code returned    *)
 (*   3 p = r, no warning  (Inverse, NoWarning)                             *)
 (*   4 t2 = t, same       (Stable)                                         *)
+(*     tc = t: the input dicts had their keys inserted in a random order;  *)
+(*     tc is the string of an EQUAL structure with the keys in the order   *)
+(*     of parse_relations -- Format is a function of the structure alone   *)
 (*   5 history (PkgRelationMemo): after step 4 the harness EDITED the      *)
 (*     returned structure in place (appended to every arch list, reversed  *)
 (*     and extended every restriction formula, popped keys) and parsed the *)
@@ -61,6 +64,7 @@ TInit == /\ tid \in 1..Len(Traces)
          /\ l = 1
          /\ rel = <<>>
          /\ ctx = "trace"
+         /\ kord = CanonOrder
 
 Advance == /\ l' = l + 1
            /\ UNCHANGED <<vars, tid>>
@@ -88,6 +92,7 @@ TStable == /\ Tr.kind = "rt"
            /\ l = 4
            /\ Tr.same
            /\ Tr.t2 = Tr.t
+           /\ Tr.tc = Tr.t
            /\ Advance
 
 TReparse == /\ Tr.kind = "rt"
